@@ -1,5 +1,5 @@
 (* Proofs/ParseRef.v — Session.Parse model against the reference decoder (Spec/RFC.v): the projection,
-   the refutation witnesses of the six recorded classes, and (below) the partial equality theorem. *)
+   the refutation witnesses of the three recorded classes (IP4.IsValid / IP6.IsValid, VIEWS cluster), and (below) the partial equality theorem. *)
 From PV Require Import Base.Prelude Base.Slice Model.Parse Spec.RFC Model.ParseKnown Proofs.Parse.
 Open Scope N_scope.
 Open Scope res_scope.
@@ -54,19 +54,14 @@ Ltac refute w :=
 
 Definition hdr (et : list N) : bytes := ([0;102;102;102;102;102; 2;17;17;17;17;17] ++ et)%list.
 
-(* 20-byte ARP body with hlen 6: accepted *)
+(* former witnesses of the repaired classes now agree with the reference decoder *)
 Definition w_arp_short : bytes := (hdr [8;6] ++ [0;1;8;0;6;4;0;1; 2;17;17;17;17;17; 192;168;0;7; 0;0])%list.
-Lemma eq_ref_refuted_arp_short : exists c s, wf s /\ bytes_ok (arr s) /\ known_C02 (view s) = Some "parse-arp-short"%string /\ ~ agrees (parse c s) (ref_decode (view s)).
-Proof. refute w_arp_short. Qed.
-
-(* 28-byte ARP body with hlen 8: accepted *)
 Definition w_arp_hlen : bytes := (hdr [8;6] ++ [0;1;8;0;8;4;0;1; 2;17;17;17;17;17; 192;168;0;7; 0;0;0;0;0;0; 192;168;0;1])%list.
-Lemma eq_ref_refuted_arp_hlen : exists c s, wf s /\ bytes_ok (arr s) /\ known_C02 (view s) = Some "parse-arp-hlen"%string /\ ~ agrees (parse c s) (ref_decode (view s)).
-Proof. refute w_arp_hlen. Qed.
-
-(* 16-byte 802.1Q frame: nil error, payload offset 18 *)
-Lemma eq_ref_refuted_vlan_short : exists c s, wf s /\ bytes_ok (arr s) /\ known_C02 (view s) = Some "parse-vlan-short"%string /\ ~ agrees (parse c s) (ref_decode (view s)).
-Proof. refute w_vlan16. Qed.
+Example fixed_witnesses_agree :
+  agreesb (parse cfg0 (of_bytes w_arp_short)) (ref_decode w_arp_short) = true /\
+  agreesb (parse cfg0 (of_bytes w_arp_hlen)) (ref_decode w_arp_hlen) = true /\
+  agreesb (parse cfg0 (of_bytes w_vlan16)) (ref_decode w_vlan16) = true.
+Proof. repeat split; vm_compute; reflexivity. Qed.
 
 (* IPv4, IHL = 4 words (16 bytes), protocol 0: accepted, payload at 14+16 *)
 Definition w_ip4_ihl : bytes := (hdr [8;0] ++ [68;0;0;20;0;0;0;0;64;0;0;0; 192;168;0;1; 192;168;0;2])%list.
